@@ -19,7 +19,8 @@ META = {
              "rows); distinct by content hash"),
     "require": {t: ["format:nan", "format:tuple", "format:plain0", "cube:ccube", "cube:xcube",
                     "class:missing_in_common_category", "class:cols_different_patterns", "class:weights+facts_missing",
-                    "cells:missing_by_value", "cells:missing_no_rows", "class:ignore", "class:propagate"]
+                    "cells:missing_by_value", "cells:missing_no_rows", "class:ignore", "class:propagate",
+                    "class:cell_counter_on_boundary"]
                 for t in ("quick", "thorough")},
     "assumptions": ["a sentinel is compared as cast to the result dtype (an integer result cannot hold 2.5)",
                     "valid_count with a plain replacement value under propagation is excluded as the property states"],
@@ -28,13 +29,18 @@ META = {
 
 def shards(tier):
     if tier == "quick":
-        return [{"label": "inputs%d" % i, "n": 90} for i in range(14)]
+        return [{"label": "inputs%d" % i, "n": 260} for i in range(14)]
     return [{"label": "inputs%d" % i, "n": 4500} for i in range(16)]
 
 
 def cases(ctx):
     rng = ctx.rng
     for i in range(ctx.shard["n"]):
+        if i % 40 == 11:
+            c = aggr.counter_boundary_case(rng)
+            c["sentinel"] = gen.pick(rng, SENTINELS)
+            yield c
+            continue
         c = gen.cube_case(rng, max_dims=3, min_dims=0, n=gen.pick(rng, [1, 2, 3, 5, 8, 17, 40, 60]))
         n = c["dense"][0].shape[0] if c["dense"] else gen.pick(rng, [1, 4, 9])
         c["n"] = n
@@ -55,6 +61,8 @@ def judge(ctx, case):
     fx, fv = gen.fact_parts(f)
     wx, wv = gen.weight_parts(w, n)
     ctx.count("class:ignore" if case["ignore_missing"] else "class:propagate")
+    if case.get("boundary_m"):
+        ctx.count("class:cell_counter_on_boundary")
     if fx.ndim == 2 and len({fv[:, k].tobytes() for k in range(fv.shape[1])}) > 1:
         ctx.count("class:cols_different_patterns")
     if wv is not None and (~wv).any() and (~fv).any():
